@@ -154,6 +154,8 @@ func GetRequestInfo(request any) string {
 		_ = json.Unmarshal(buffer, create)
 		create.MilvusConnectParam.Password = ""
 		create.MilvusConnectParam.Token = ""
+		create.KafkaConnectParam.SASL.Username = ""
+		create.KafkaConnectParam.SASL.Password = ""
 		r = create
 	}
 	requestBytes, _ := json.Marshal(r)
